@@ -1032,6 +1032,23 @@ static void _purge_hierarchy_changes(TickitWindow *win)
   }
 }
 
+static void _clip_rectset(TickitRectSet *trs, const TickitRect *bounds)
+{
+  int n = tickit_rectset_rects(trs);
+  if(!n)
+    return;
+
+  TickitRect rects[n];
+  tickit_rectset_get_rects(trs, rects, n);
+  tickit_rectset_clear(trs);
+
+  for(int i = 0; i < n; i++) {
+    TickitRect r;
+    if(tickit_rect_intersect(&r, rects + i, bounds))
+      tickit_rectset_add(trs, &r);
+  }
+}
+
 static bool _scrollrectset(TickitWindow *win, TickitRectSet *visible, int downward, int rightward, TickitPen *pen)
 {
   TickitWindow *origwin = win;
@@ -1061,6 +1078,9 @@ static bool _scrollrectset(TickitWindow *win, TickitRectSet *visible, int downwa
 
       tickit_rectset_subtract(visible, &sib->rect);
     }
+
+    /* Only what lies within the parent's own bounds is on screen */
+    _clip_rectset(visible, &(TickitRect){ .top = 0, .left = 0, .lines = parent->rect.lines, .cols = parent->rect.cols });
 
     win = parent;
   }
